@@ -296,7 +296,7 @@ def check_property(prop, tier="quick", seed=0, jobs=None, only=None, write_evide
     modname = f"gtv.props.{prop}"
     mod = importlib.import_module(modname)
     obs = [o for o in mod.REG.obs if tier == "thorough" or o.tier == "quick"]
-    obs = obs + unit_variants(mod.REG.obs)
+    obs = obs + [v for v in unit_variants(mod.REG.obs) if tier == "thorough" or v.tier == "quick"]
     if isinstance(only, (set, frozenset)):
         obs = [o for o in obs if o.id in only]
     elif only:
